@@ -557,7 +557,7 @@ fn run_parse_case(case: &[String]) -> String {
     // case parse:<id> <lang> <kind> ; text <codepoints...>
     let head: Vec<&str> = case[0].split_whitespace().collect();
     let text: String = case[1].split_whitespace().skip(1).map(|x| char::from_u32(x.parse().unwrap()).unwrap()).collect();
-    let res = match head[2] { "Lf" => parse_one::<Lf>(head[3], &text), "Lb" => parse_one::<Lb>(head[3], &text), _ => panic!("natdiff: lang") };
+    let res = match head[2] { "Lf" => parse_one::<Lf>(head[3], &text), "Lb" => parse_one::<Lb>(head[3], &text), "Lp" => parse_one::<Lp>(head[3], &text), _ => panic!("natdiff: lang") };
     format!("{{\"case\":{},\"text\":{},\"result\":{}}}", jstr(head[1]), jstr(&text), jstr(&res))
 }
 
